@@ -70,7 +70,7 @@ impl Device for Mem {
     fn read_half(&mut self, address: usize, _: AccessCode) -> Result<u16, BusError> {
         let offset = address.wrapping_sub(self.address_range().start);
 
-        if address >= self.address_range().end {
+        if address + 1 >= self.address_range().end {
             Err(BusError::Range)
         } else {
             Ok(
@@ -83,7 +83,7 @@ impl Device for Mem {
     fn read_word(&mut self, address: usize, _: AccessCode) -> Result<u32, BusError> {
         let offset = address.wrapping_sub(self.address_range().start);
 
-        if address >= self.address_range().end {
+        if address + 3 >= self.address_range().end {
             Err(BusError::Range)
         } else {
             Ok(
@@ -119,7 +119,7 @@ impl Device for Mem {
 
         let offset = address.wrapping_sub(self.address_range().start);
 
-        if address >= self.address_range().end {
+        if address + 1 >= self.address_range().end {
             Err(BusError::Range)
         } else {
             self.ram[offset] = (val.wrapping_shr(8) & 0xff) as u8;
@@ -135,7 +135,7 @@ impl Device for Mem {
 
         let offset = address.wrapping_sub(self.address_range().start);
 
-        if address >= self.address_range().end {
+        if address + 3 >= self.address_range().end {
             Err(BusError::Range)
         } else {
             self.ram[offset] = (val.wrapping_shr(24) & 0xff) as u8;
